@@ -290,6 +290,9 @@ _dump_n = [0]
 
 def discharge_one(vc):
     t0 = time.time()
+    if getattr(vc, "fixed_status", None):
+        vc.status, vc.backend, vc.time = vc.fixed_status, "none", 0.0
+        return
     if z3.is_true(vc.goal):
         vc.status, vc.backend, vc.time = "unsat", "simplifier", 0.0
         return
@@ -342,7 +345,9 @@ def discharge(vcs, jobs=None, inline_heavy=True, stop_at_sat=False):
     groups = {}
     rest = []
     for vc in vcs:
-        if z3.is_true(vc.goal):
+        if getattr(vc, "fixed_status", None):
+            vc.status, vc.backend, vc.time = vc.fixed_status, "none", 0.0
+        elif z3.is_true(vc.goal):
             vc.status, vc.backend, vc.time = "unsat", "simplifier", 0.0
         elif vc.kind in ("ensures", "on_raise", "raises", "lemma"):
             groups.setdefault(vc.path, []).append(vc)
